@@ -18,7 +18,7 @@
     of Bonnet's recurrence, stopped at a step of at most 1e-14. *)
 From Coq Require Import Reals ZArith List.
 From Coquelicot Require Import Coquelicot.
-From LP Require Import Num NumR C12_Model C12_Proofs C12_Proofs_B.
+From LP Require Import Num NumR C12_Model C12_Proofs C12_Proofs_B C12_Proofs_C.
 Import ListNotations.
 Local Open Scope R_scope.
 
@@ -268,3 +268,39 @@ Print Assumptions C12_handled_failure.
 Example C12_nestX_hyp (a b : R) :
   Forall2 levX_same [(((KInt, 1%nat), (a, b)), Some 0); (((KDef, 7%nat), (b, a)), None)] [(((KVal, 1%nat), (a, b)), Some 0); (((KFun, 30%nat), (b, a)), None)].
 Proof. repeat constructor. Qed.
+
+(** "mismatched value and rule lengths are rejected", whatever the values are.  The number type is abstract (no law is assumed of
+    it), so the statement covers doubles with NaN, infinities and signed zeros verbatim: whether the (values, rule) overload rejects
+    a request is a function of the number of values and of the lengths of the rows alone ([values_rejected]); two requests of the
+    same shape are both rejected or both answered, and a request that is not rejected returns a value. *)
+Theorem C12_guard_shape_only {T} (Ops : NumOps T) (vals vals' : list T) (rw rw' : list (list T)) :
+  length vals = length vals' -> map (@length T) rw = map (@length T) rw' ->
+  (gl_integrate_values Ops vals rw = Exit <-> gl_integrate_values Ops vals' rw' = Exit) /\
+  (gl_integrate_values Ops vals rw <> Exit -> exists v, gl_integrate_values Ops vals rw = Ok v).
+Proof. exact (guard_shape_only Ops vals vals' rw rw'). Qed.
+Print Assumptions C12_guard_shape_only.
+
+Theorem C12_exit_iff_shape {T} (Ops : NumOps T) (vals : list T) (rw : list (list T)) :
+  gl_integrate_values Ops vals rw = Exit <-> values_rejected (length vals) (map (@length T) rw) = true.
+Proof. exact (values_exit_iff Ops vals rw). Qed.
+Print Assumptions C12_exit_iff_shape.
+
+(** the hypotheses are satisfiable and the decision is not constant: 2 values on 3 rows rejected, 3 on 3 answered, a ragged row rejected *)
+Example C12_guard_shape_hyp : values_rejected 2 [2; 2; 2]%nat = true /\ values_rejected 3 [2; 2; 2]%nat = false /\
+  values_rejected 3 [2; 3; 2]%nat = true.
+Proof. exact ex_guard_shape. Qed.
+
+(** the (values, rule) overload is a linear functional of the function values on every well-formed table of every length (over the
+    reals; induction over the table): the step from "exact on the monomials" to "exact on every polynomial of degree <= 2n-1" *)
+Theorem C12_values_linear (al be : R) (us vs : list R) (rw : list (list R)) :
+  length us = length rw -> length vs = length rw -> two_col rw = true ->
+  exists Iu Iv, gl_integrate_values ROps us rw = Ok Iu /\ gl_integrate_values ROps vs rw = Ok Iv /\
+    gl_integrate_values ROps (map (fun uv => al * fst uv + be * snd uv) (combine us vs)) rw = Ok (al * Iu + be * Iv).
+Proof. exact (values_linear al be us vs rw). Qed.
+Print Assumptions C12_values_linear.
+
+Example C12_values_linear_hyp :
+  let rw := [[-1; 1]; [0; 2]; [1; 1]] in
+  length [1; 2; 3] = length rw /\ length [4; 5; 6] = length rw /\ two_col rw = true /\
+  gl_integrate_values ROps [1; 2; 3] rw = Ok (0 + 1 * 1 + 2 * 2 + 3 * 1).
+Proof. exact ex_values_linear. Qed.
